@@ -59,6 +59,17 @@ def check_C08(rep, known):
 
 def check_C06(rep, known):
     scen_job(rep, 'ScenShoot', 'C06', [r'C06\.', r'build', r'varmap'], known)
+    # DensityGrid: observed node positions validated by TLC against the declarative equidistribution
+    import density
+    pairs = [('1+3t2', '1+t'), ('3-2t', '1+t'), ('1+4t3', '1+3t2')]
+    obs, verdicts, st = density.run(pairs, [2, 3, 5] if rep.tier == 'quick' else [1, 2, 3, 4, 5, 6, 8])
+    st['module'] = 'TraceDensity'; rep.add_tlc(st)
+    for o in obs:
+        rep.evaluations += 1; rep.sigs.add(o['id'])
+        if verdicts[o['id']]: rep.count('C06.d:density', 'ok')
+        else:
+            rep.count('C06.d:density', 'mismatch')
+            rep.violations.append(('C06.d:density', 'observed nodes %s are not the equidistribution of density %s' % ([round(v, 4) for v in o['raw']], o['density']), {'id': o['id'], 'sc': o['id']}, None))
     mc_job(rep, 'MC_Grids', 'MC_Grids_ideal.cfg')
     mc_job(rep, 'MC_Grids', 'MC_Grids_old.cfg', expect_violation='RowsCharacterise')
     mc_job(rep, 'MC_Grids', 'MC_Grids_nocoupling.cfg', expect_violation='RowsCharacterise')
@@ -174,6 +185,7 @@ def check_C10(rep, known):
 
 def check_C11(rep, known):
     scen_job(rep, 'ScenShoot', 'C11', [r'C11\.', r'build', r'varmap'], known)
+    life_job(rep, [r'C11\.'], known)      # set_T / set_t0 along histories: the live time grid is that of the declaration
 
 
 def check_C14(rep, known):
